@@ -37,6 +37,18 @@ Definition hook_precedes_writes (acts : list ract) : bool :=
   | _ :: _ => false
   end.
 
+(* the receiver is cancelled (session torn down) while it handles a PDU it has read: inside the handler (the correlator's awaits: sweeps
+   that call the application's send_error hook) or inside the received hook.  A response is handled to its end (receiver_finishes_read_pdu,
+   read off _receive_data: the handling runs shielded and is awaited before the cancellation is passed on; nothing in it waits for the
+   session); the handling of a request is interrupted, and the raw PDU is handed to the hook (request_handling_cancel_guard, read off
+   _handle_pdu). *)
+Inductive cancel_phase := InHandler | InHook.
+Definition hook_calls_when_cancelled (is_req : bool) (ph : cancel_phase) : nat :=
+  match ph with
+  | InHook => 1%nat
+  | InHandler => if is_req then (if request_handling_cancel_guard then 1%nat else O) else (if receiver_finishes_read_pdu then 1%nat else O)
+  end.
+
 Definition ser_hook_calls (default : enc) (pdu : list Z) (writes_fail : bool) : list Z :=
   match parse_header (firstn 16 pdu) with
   | Err _ => [-1]
